@@ -8,8 +8,9 @@
        (confirm_handed_over_complete, confirm_units_bounded)
                                waiting in the store; counted + pending units never exceed the number of routed queues;
      confirm_all_at_rest       in a quiescent state nothing is in flight on an open confirm-mode channel;
-     confirm_exactly_once_at_rest_partial
-                               ... hence exactly 1 .. ch_ctag were acknowledged, PROVIDED no number was dropped (not proved).
+     confirm_exactly_once_at_rest
+                               ... hence exactly 1 .. ch_ctag were acknowledged, provided the run dropped no number of the
+                               instance (no_drop_run, a boolean function of the label list; confirm_nothing_dropped).
 
    Method: (1) a view of the state (vle) that every label not concerned with confirmations leaves alone - proved once,
    primitive by primitive; (2) a relation `trans` saying what a step may do to the numbers of a channel (hand on, drop,
@@ -4170,4 +4171,956 @@ Corollary fresh_along_init cfg fx ls : fx_clear_current fx = true -> NoDup (conn
 Proof.
   intros Hfx Hnd. apply (fresh_along_of_distinct_ids cfg fx ls (init cfg) []); auto.
   split; [apply (proj1 (Inv_init cfg))|]. split; [intros c X; unfold get_conn in X; cbn in X; congruence|intros u m c h t []].
+Qed.
+
+
+(* ================================================================== *)
+(* EXACTLY ONCE: nothing is dropped.  The reverse of `mid`, for one channel: no number leaves where_nc *)
+Section Keep.
+Variables (c h : N).
+
+Definition kch (s0 s : state) : Prop :=
+  forall ch0 ch, get_chan s0 c h = Some ch0 -> get_chan s c h = Some ch ->
+    forall t, (cnt t (where_nc s0 c h ch0) <= cnt t (where_nc s c h ch))%nat.
+Lemma kch_refl s : kch s s.
+Proof. intros ch0 ch H0 H1 t. rewrite H0 in H1. inversion H1. lia. Qed.
+Lemma kch_trans s0 s1 s2 : mid s0 s1 -> kch s0 s1 -> kch s1 s2 -> kch s0 s2.
+Proof.
+  intros Hm K1 K2 ch0 ch2 H0 H2 t. destruct (get_chan s1 c h) as [ch1|] eqn:H1.
+  - specialize (K1 ch0 ch1 H0 H1 t). specialize (K2 ch1 ch2 H1 H2 t). lia.
+  - apply (mid_none _ _ c h Hm) in H1. congruence.
+Qed.
+
+Lemma where_nc_vla s0 s ch0 ch : vla s0 s -> get_chan s0 c h = Some ch0 -> get_chan s c h = Some ch ->
+  where_nc s c h ch = where_nc s0 c h ch0.
+Proof.
+  intros [A B C D E] Hg0 Hg. specialize (A c h). unfold chan_le in A. rewrite Hg0, Hg in A. destruct A as [Ew _].
+  unfold chw in Ew. inversion Ew as [[E1 E2 E3 E4 E5 E6]]. rewrite !where_nc_alt. unfold chan_inst. rewrite Hg, Hg0, E4, E5, D.
+  rewrite (RP_mv _ _ _ (heap s) (heap s0)) by exact C. rewrite (HP_mv _ _ _ (heap s) (heap s0)) by exact C. reflexivity.
+Qed.
+Lemma kch_vla s0 s : vla s0 s -> kch s0 s.
+Proof. intros Hv ch0 ch H0 H1 t. rewrite (where_nc_vla s0 s ch0 ch Hv H0 H1). lia. Qed.
+Lemma kch_vle s0 s : vle s0 s -> kch s0 s.
+Proof. intros Hv. apply kch_vla, vle_vla, Hv. Qed.
+
+Lemma kch_build s s2 u m m' :
+  get_msg s u = Some m -> ci m' = ci m -> heap s2 = aset N.eqb u m' (heap s) ->
+  (forall ch ch2, get_chan s c h = Some ch -> get_chan s2 c h = Some ch2 -> ch_inst ch2 = ch_inst ch /\
+     forall t, (cnt t (ch_confirmq ch) + cnt t (RP (Some (ch_inst ch)) c h (heap s) (relay s)) + cnt t (hp1 c h (ch_inst ch) m)
+                <= cnt t (ch_confirmq ch2) + cnt t (RP (Some (ch_inst ch)) c h (heap s) (relay s2)) + cnt t (hp1 c h (ch_inst ch) m'))%nat) ->
+  kch s s2.
+Proof.
+  intros Hg Eci Hh Hch ch ch2 Hg0 Hg2 t. unfold get_msg in Hg. destruct (Hch ch ch2 Hg0 Hg2) as [a e]. specialize (e t).
+  rewrite !where_nc_alt, !cnt_app. unfold chan_inst. rewrite Hg0, Hg2, a, Hh.
+  rewrite (RP_aset_ci _ _ _ _ _ _ _ _ Hg Eci).
+  pose proof (cnt_HP_aset c h (ch_inst ch) (heap s) u m m' t Hg). lia.
+Qed.
+Lemma kch_build0 s s2 :
+  heap s2 = heap s ->
+  (forall ch ch2, get_chan s c h = Some ch -> get_chan s2 c h = Some ch2 -> ch_inst ch2 = ch_inst ch /\
+     forall t, (cnt t (ch_confirmq ch) + cnt t (RP (Some (ch_inst ch)) c h (heap s) (relay s))
+                <= cnt t (ch_confirmq ch2) + cnt t (RP (Some (ch_inst ch)) c h (heap s) (relay s2)))%nat) ->
+  kch s s2.
+Proof.
+  intros Hh Hch ch ch2 Hg0 Hg2 t. destruct (Hch ch ch2 Hg0 Hg2) as [a e]. specialize (e t).
+  rewrite !where_nc_alt, !cnt_app. unfold chan_inst. rewrite Hg0, Hg2, a, Hh. lia.
+Qed.
+
+(* msgstorage.confirm never drops *)
+Lemma store_confirm_kch s u : kch s (store_confirm s u).
+Proof.
+  unfold store_confirm. destruct (get_msg s u) as [m|] eqn:Hm; [|apply kch_refl].
+  destruct (m_conf m) as [[[c0 h0] t0]|] eqn:Ecf; [|apply kch_refl].
+  set (m1 := m <| m_actual ::= Z.succ |>).
+  assert (Hup : upd_msg s u (fun m => m <| m_actual ::= Z.succ |>) = s <| heap := aset N.eqb u m1 (heap s) |>)
+    by (unfold upd_msg; rewrite Hm; reflexivity).
+  rewrite Hup.
+  destruct (Z.succ (m_actual m) =? m_expected m)%Z eqn:Ez.
+  - apply Z.eqb_eq in Ez. apply (kch_build s _ u m m1); auto.
+    intros ch ch2 Hg0 Hg2. change (get_chan (s <| heap := aset N.eqb u m1 (heap s) |> <| relay ::= fun l => l ++ [u] |>) c h) with (get_chan s c h) in Hg2.
+    rewrite Hg0 in Hg2. inversion Hg2; subst ch2. split; auto. intros t. cbn [relay set].
+    rewrite RP_app, cnt_app. unfold RP at 3. cbn [flat_map]. unfold get_msg in Hm. rewrite Hm, app_nil_r.
+    rewrite cnt_rp, !cnt_hp1. change (m_conf m1) with (m_conf m). rewrite Ecf.
+    change (m_inst m1) with (m_inst m). change (m_actual m1) with (Z.succ (m_actual m)). change (m_expected m1) with (m_expected m).
+    rewrite (N.eqb_sym (ch_inst ch) (m_inst m)).
+    destruct ((c0 =? c) && (h0 =? h) && (m_inst m =? ch_inst ch)); cbn [andb]; [|lia].
+    destruct (Z.succ (m_actual m) <? m_expected m)%Z eqn:E1, (m_actual m <? m_expected m)%Z eqn:E2; cbn [andb]; try lia.
+  - apply (kch_build s _ u m m1); auto.
+    intros ch ch2 Hg0 Hg2. change (get_chan (s <| heap := aset N.eqb u m1 (heap s) |>) c h) with (get_chan s c h) in Hg2.
+    rewrite Hg0 in Hg2. inversion Hg2; subst ch2. split; auto. intros t. cbn [relay set]. rewrite !cnt_hp1.
+    change (m_conf m1) with (m_conf m). rewrite Ecf.
+    change (m_inst m1) with (m_inst m). change (m_actual m1) with (Z.succ (m_actual m)). change (m_expected m1) with (m_expected m).
+    destruct ((c0 =? c) && (h0 =? h) && (m_inst m =? ch_inst ch)); cbn [andb]; [|lia].
+    destruct (Z.succ (m_actual m) <? m_expected m)%Z eqn:E1, (m_actual m <? m_expected m)%Z eqn:E2; cbn [andb]; try lia.
+Qed.
+Lemma persist_tick_kch cfg fx s : kch s (fst (step cfg fx s LPersistTick)).
+Proof.
+  cbn [step fst].
+  match goal with |- kch s (fold_left ?f ?l ?sx) => set (s0 := sx); assert (H0 : mid s s0 /\ kch s s0); [|generalize dependent s0; induction l as [|k r IH]; intros s0 [M K]; cbn [fold_left]; auto] end.
+  - assert (Hv : vla s s0) by (constructor; try reflexivity; try tauto; intros; apply chan_le_refl). split; [apply vla_mid|apply kch_vla]; exact Hv.
+  - apply IH. split; [eapply mid_trans; [exact M|apply store_confirm_mid]|eapply kch_trans; [exact M|exact K|apply store_confirm_kch]].
+Qed.
+
+(* guards: a live message's channel is in confirm mode; the channel is not closed *)
+Definition live_confirm (s : state) : Prop := forall u m t0 ch,
+  get_msg s u = Some m -> m_conf m = Some (c, h, t0) -> get_chan s c h = Some ch -> m_inst m = ch_inst ch -> ch_confirm ch = true.
+Definition not_closed (s : state) : Prop := forall ch, get_chan s c h = Some ch -> ch_status ch <> ChClosed.
+
+Lemma add_confirm_other s c0 h0 x : (c0 =? c) && (h0 =? h) = false -> get_chan (add_confirm s c0 h0 x) c h = get_chan s c h.
+Proof.
+  intros Eb. destruct (add_confirm_cases s c0 h0 x) as [Es|(ch & c1 & h1 & t & _ & Hg & Es)]; rewrite Es; auto.
+  rewrite get_chan_set_chan. destruct (get_conn s c0); auto. rewrite (N.eqb_sym c c0), (N.eqb_sym h h0), Eb. reflexivity.
+Qed.
+Lemma add_confirm_frame s c0 h0 x : heap (add_confirm s c0 h0 x) = heap s /\ relay (add_confirm s c0 h0 x) = relay s.
+Proof.
+  destruct (add_confirm_cases s c0 h0 x) as [Es|(ch & c1 & h1 & t & _ & Hg & Es)]; rewrite Es; auto.
+  destruct (set_chan_frame s c0 h0 (ch <| ch_confirmq ::= fun l => l ++ [t] |>)) as (A & B & _). auto.
+Qed.
+Lemma add_confirm_live s ch t c1 h1 :
+  get_chan s c h = Some ch -> ch_confirm ch = true -> ch_status ch <> ChClosed ->
+  add_confirm s c h (Some (c1, h1, t)) = set_chan s c h (ch <| ch_confirmq ::= fun l => l ++ [t] |>).
+Proof. intros Hg Hc Hs. unfold add_confirm. rewrite Hg, Hc. cbn [negb]. destruct (ch_status ch); congruence. Qed.
+
+Lemma relay_step_kch cfg fx s : live_confirm s -> not_closed s -> kch s (fst (step cfg fx s LRelay)).
+Proof.
+  intros Hlc Hst. cbn [step]. destruct (relay s) as [|u rest] eqn:Er; [apply kch_refl|].
+  change (get_msg (s <| relay := rest |>) u) with (get_msg s u).
+  assert (Hdrop : (forall m, get_msg s u = Some m -> forall i, rp (Some i) c h m = []) -> kch s (s <| relay := rest |>)).
+  { intros Hrp. apply kch_build0; auto. intros ch ch2 Hg0 Hg2. change (get_chan (s <| relay := rest |>) c h) with (get_chan s c h) in Hg2.
+    rewrite Hg0 in Hg2. inversion Hg2; subst ch2. split; auto. intros t. cbn [relay set]. rewrite Er.
+    change (u :: rest) with ([u] ++ rest). rewrite RP_app, cnt_app. unfold RP at 1. cbn [flat_map]. fold (get_msg s u).
+    destruct (get_msg s u) as [m|] eqn:Hm; [rewrite (Hrp m eq_refl)|]; cbn; lia. }
+  destruct (get_msg s u) as [m|] eqn:Hgm; cbn [fst]; [|apply Hdrop; intros; discriminate].
+  destruct (m_conf m) as [[[c0 h0] t0]|] eqn:Ecf; cbn [fst]; [|apply Hdrop; intros m0 E i; inversion E; subst; unfold rp; rewrite Ecf; reflexivity].
+  set (s1 := s <| relay := rest |>) in *.
+  destruct ((c0 =? c) && (h0 =? h)) eqn:Eb.
+  - apply andb_prop in Eb. destruct Eb as [E1 E2]. apply N.eqb_eq in E1, E2. subst c0 h0.
+    unfold live_conf. rewrite Ecf. change (get_chan s1 c h) with (get_chan s c h).
+    destruct (get_chan s c h) as [ch|] eqn:Hgc.
+    2:{ rewrite add_confirm_none. intros ch0 ch2 H0. congruence. }
+    destruct (ch_inst ch =? m_inst m) eqn:Ei.
+    2:{ rewrite add_confirm_none. apply kch_build0; auto. intros ch0 ch2 Hg0 Hg2. change (get_chan s1 c h) with (get_chan s c h) in Hg2.
+        rewrite Hg0 in Hg2. inversion Hg2; subst ch2. rewrite Hgc in Hg0. inversion Hg0; subst ch0. split; auto. intros t. cbn [relay set s1]. rewrite Er.
+        change (u :: rest) with ([u] ++ rest). rewrite RP_app, cnt_app. unfold RP at 1. cbn [flat_map]. fold (get_msg s u). rewrite Hgm, app_nil_r.
+        rewrite cnt_rp, Ecf, Ei, !andb_false_r. cbn. lia. }
+    apply N.eqb_eq in Ei.
+    rewrite (add_confirm_live s1 ch t0 c h Hgc (Hlc u m t0 ch Hgm Ecf Hgc (eq_sym Ei)) (Hst ch Hgc)).
+    set (ch2 := ch <| ch_confirmq ::= fun l => l ++ [t0] |>).
+    destruct (set_chan_frame s1 c h ch2) as (F1 & F2 & _).
+    apply kch_build0; auto. intros ch0 ch3 Hg0 Hg3. rewrite Hgc in Hg0. inversion Hg0; subst ch0.
+    rewrite (get_chan_set_chan_same s1 c h ch2) in Hg3 by (eapply get_chan_conn; exact Hgc). inversion Hg3; subst ch3.
+    split; auto. intros t. rewrite F2. cbn [relay set s1 ch_confirmq ch2]. rewrite Er.
+    change (u :: rest) with ([u] ++ rest). rewrite RP_app, !cnt_app. unfold RP at 1. cbn [flat_map]. fold (get_msg s u). rewrite Hgm, app_nil_r.
+    rewrite cnt_rp, Ecf, !N.eqb_refl, Ei, N.eqb_refl. cbn [andb]. rewrite cnt_one. lia.
+  - destruct (add_confirm_frame s1 c0 h0 (live_conf s1 m)) as [F1 F2].
+    apply kch_build0; auto. intros ch0 ch3 Hg0 Hg3. rewrite (add_confirm_other s1 c0 h0 _ Eb) in Hg3. change (get_chan s1 c h) with (get_chan s c h) in Hg3.
+    rewrite Hg0 in Hg3. inversion Hg3; subst ch3. split; auto. intros t. rewrite F2. cbn [relay set s1]. rewrite Er.
+    change (u :: rest) with ([u] ++ rest). rewrite RP_app, !cnt_app. unfold RP at 1. cbn [flat_map]. fold (get_msg s u). rewrite Hgm, app_nil_r.
+    rewrite cnt_rp, Ecf, Eb. cbn. lia.
+Qed.
+
+(* one push never drops the number of its message, given that the message's channel is in confirm mode and not closed *)
+Definition push_guard (s : state) (c2 h2 : N) (m : msg) : Prop :=
+  (c2 =? c) && (h2 =? h) = true -> m_conf m <> None ->
+  forall ch, get_chan s c h = Some ch -> m_inst m = ch_inst ch /\ ch_confirm ch = true /\ ch_status ch <> ChClosed.
+
+Lemma push_one_kch s c2 h2 u pers has_meta qn m :
+  get_msg s u = Some m -> m_pers m = pers -> (has_meta = true <-> m_conf m <> None) ->
+  (forall c0 h0 t, m_conf m = Some (c0, h0, t) -> c0 = c2 /\ h0 = h2) -> push_guard s c2 h2 m ->
+  kch s (push_one s c2 h2 u pers has_meta qn).
+Proof.
+  intros Hm Hp Hmeta Hown Hgd. unfold push_one. fold (counted_flag s qn pers). rewrite <- Hp.
+  destruct (queue_push_spec s qn u m Hm) as (A & C & D & Hcases). set (s1 := queue_push s qn u) in *.
+  assert (Hsame : heap s1 = heap s -> kch s s1).
+  { intros B. apply kch_build0; auto. intros ch ch2 Hg0 Hg2. rewrite (get_chan_same_conns _ _ _ _ A), Hg0 in Hg2. inversion Hg2; subst.
+    split; auto. intros t. rewrite C. lia. }
+  destruct Hcases as [(B & E & F)|[(B & E & F)|(F & Hcf & B & E)]].
+  - assert (Hg1 : get_msg s1 u = Some m) by (unfold get_msg in *; rewrite B; exact Hm). rewrite Hg1.
+    assert (Hno : has_meta && counted_flag s qn (m_pers m) = false).
+    { destruct F as [F|F]; [rewrite F; apply andb_false_r|]. destruct has_meta; auto. exfalso. apply (proj1 Hmeta); auto. }
+    rewrite Hno. cbn [andb]. auto.
+  - assert (Hg1 : get_msg s1 u = Some m) by (unfold get_msg in *; rewrite B; exact Hm). rewrite Hg1, F, andb_false_r. cbn [andb]. auto.
+  - set (m1 := m <| m_actual ::= Z.succ |>) in *.
+    assert (Hg1 : get_msg s1 u = Some m1) by (unfold get_msg; rewrite B, (alookup_aset N.eqb Neqb_spec), N.eqb_refl; reflexivity).
+    rewrite Hg1, F, andb_true_r. rewrite (proj2 Hmeta Hcf). cbn [andb].
+    destruct (m_conf m) as [[[c0 h0] t0]|] eqn:Ecf; [|congruence]. destruct (Hown c0 h0 t0 eq_refl) as [-> ->].
+    destruct ((c2 =? c) && (h2 =? h)) eqn:Eb.
+    + apply andb_prop in Eb. destruct Eb as [E1 E2]. apply N.eqb_eq in E1, E2. subst c2 h2.
+      assert (Eb : (c =? c) && (h =? h) = true) by (rewrite !N.eqb_refl; reflexivity).
+      destruct (get_chan s c h) as [ch|] eqn:Hgc; [|destruct (_ =? _)%Z; intros ch0 ch2 H0; unfold kch; congruence].
+      assert (Hcfn : m_conf m <> None) by (rewrite Ecf; discriminate).
+      destruct (Hgd Eb Hcfn ch Hgc) as (Hi & Hc & Hs).
+      assert (Hgc1 : get_chan s1 c h = Some ch) by (rewrite (get_chan_same_conns _ _ _ _ A); exact Hgc).
+      destruct (m_actual m1 =? m_expected m1)%Z eqn:Ez.
+      * apply Z.eqb_eq in Ez. unfold live_conf. change (m_conf m1) with (m_conf m). change (m_inst m1) with (m_inst m).
+        rewrite Ecf, Hgc1, Hi, N.eqb_refl. rewrite (add_confirm_live s1 ch t0 c h Hgc1 Hc Hs).
+        set (ch2 := ch <| ch_confirmq ::= fun l => l ++ [t0] |>).
+        destruct (set_chan_frame s1 c h ch2) as (F1 & F2 & _).
+        apply (kch_build s _ u m m1); auto; [congruence|]. intros ch0 ch3 Hg0 Hg3. rewrite Hgc in Hg0. inversion Hg0; subst ch0.
+        rewrite (get_chan_set_chan_same s1 c h ch2) in Hg3 by (eapply get_chan_conn; exact Hgc1). inversion Hg3; subst ch3.
+        split; auto. intros t. rewrite F2, C. cbn [ch_confirmq set ch2]. rewrite cnt_app, cnt_one, !cnt_hp1.
+        change (m_conf m1) with (m_conf m). rewrite Ecf. change (m_inst m1) with (m_inst m). rewrite !N.eqb_refl, Hi, N.eqb_refl. cbn [andb].
+        change (m_actual m1) with (Z.succ (m_actual m)) in *. change (m_expected m1) with (m_expected m) in *.
+        destruct (Z.succ (m_actual m) <? m_expected m)%Z eqn:X1, (m_actual m <? m_expected m)%Z eqn:X2; cbn [andb]; try lia;
+          destruct (t0 =? t); lia.
+      * apply Z.eqb_neq in Ez. apply (kch_build s _ u m m1); auto. intros ch0 ch3 Hg0 Hg3. rewrite Hgc in Hg0. inversion Hg0; subst ch0.
+        rewrite Hgc1 in Hg3. inversion Hg3; subst ch3. split; auto. intros t. rewrite C, !cnt_hp1.
+        change (m_conf m1) with (m_conf m). rewrite Ecf. change (m_inst m1) with (m_inst m).
+        change (m_actual m1) with (Z.succ (m_actual m)) in *. change (m_expected m1) with (m_expected m) in *.
+        destruct ((c =? c) && (h =? h) && (m_inst m =? ch_inst ch)); cbn [andb]; [|lia].
+        destruct (Z.succ (m_actual m) <? m_expected m)%Z eqn:X1, (m_actual m <? m_expected m)%Z eqn:X2; cbn [andb]; try lia.
+    + (* the message belongs to another channel *)
+      assert (Hhp : forall i t x, cnt t (hp1 c h i x) = 0%nat \/ m_conf x <> Some (c2, h2, t0)).
+      { intros i t x. destruct (m_conf x) as [[[c1 h1] t1]|] eqn:Ex; [|right; discriminate].
+        rewrite cnt_hp1, Ex. destruct ((c1 =? c) && (h1 =? h)) eqn:Ex2; [|left; reflexivity].
+        right. intros X. inversion X; subst. congruence. }
+      assert (Hz : forall i t, cnt t (hp1 c h i m) = 0%nat /\ cnt t (hp1 c h i m1) = 0%nat).
+      { intros i t. split; [destruct (Hhp i t m) as [X|X]|destruct (Hhp i t m1) as [X|X]]; auto; exfalso; apply X; exact Ecf. }
+      destruct (m_actual m1 =? m_expected m1)%Z.
+      * destruct (add_confirm_frame s1 c2 h2 (live_conf s1 m1)) as [F1 F2].
+        apply (kch_build s _ u m m1); auto; [congruence|]. intros ch0 ch3 Hg0 Hg3. rewrite (add_confirm_other s1 c2 h2 _ Eb) in Hg3.
+        rewrite (get_chan_same_conns _ _ _ _ A), Hg0 in Hg3. inversion Hg3; subst ch3. split; auto. intros t. rewrite F2, C.
+        destruct (Hz (ch_inst ch0) t) as [-> ->]. lia.
+      * apply (kch_build s _ u m m1); auto. intros ch0 ch3 Hg0 Hg3.
+        rewrite (get_chan_same_conns _ _ _ _ A), Hg0 in Hg3. inversion Hg3; subst ch3. split; auto. intros t. rewrite C.
+        destruct (Hz (ch_inst ch0) t) as [-> ->]. lia.
+Qed.
+
+Lemma push_guard_next s s1 c2 h2 m m1 : mid s s1 -> sct_same s s1 -> ci m1 = ci m -> push_guard s c2 h2 m -> push_guard s1 c2 h2 m1.
+Proof.
+  intros Hm Hs Eci Hg Eb Hcf ch1 Hg1. inversion Eci as [[E1 E2]]. pose proof (mid_ch _ _ Hm c h) as C. unfold mid_chan in C. rewrite Hg1 in C.
+  destruct (get_chan s c h) as [ch|] eqn:Hg0; [|tauto]. destruct C as (a & _). specialize (Hs c h). rewrite Hg1, Hg0 in Hs. cbn in Hs.
+  inversion Hs as [[S1 S2 S3]]. assert (Hcf0 : m_conf m <> None) by congruence. destruct (Hg Eb Hcf0 ch Hg0) as (X & Y & Z). rewrite E2, a, S1, S2. auto.
+Qed.
+
+Lemma fold_push_kch c2 h2 u pers has_meta qs : forall s m,
+  get_msg s u = Some m -> m_pers m = pers -> (has_meta = true <-> m_conf m <> None) ->
+  (forall c0 h0 t, m_conf m = Some (c0, h0, t) -> c0 = c2 /\ h0 = h2) -> push_guard s c2 h2 m ->
+  kch s (fold_left (fun s qn => push_one s c2 h2 u pers has_meta qn) qs s).
+Proof.
+  induction qs as [|qn r IH]; intros s m Hm Hp Hmeta Hown Hgd; cbn [fold_left]; [apply kch_refl|].
+  destruct (push_one_mid s c2 h2 u pers has_meta qn m Hm Hp (proj1 Hmeta) Hown) as (Hmid & m1 & Hg1 & Eci & Ep & _).
+  pose proof (push_one_kch s c2 h2 u pers has_meta qn m Hm Hp Hmeta Hown Hgd) as K1.
+  inversion Eci as [[E1 E2]].
+  eapply kch_trans; [exact Hmid|exact K1|]. apply (IH _ m1 Hg1); [congruence|rewrite E1; exact Hmeta| |].
+  - intros c0 h0 t Hx. rewrite E1 in Hx. eauto.
+  - eapply push_guard_next; eauto. apply sct_same_push_one.
+Qed.
+
+(* the whole where_is (with the message being assembled) *)
+Definition kfull (s s' : state) : Prop :=
+  forall ch ch', get_chan s c h = Some ch -> get_chan s' c h = Some ch' ->
+    forall t, (cnt t (where_ch s c h ch) <= cnt t (where_ch s' c h ch'))%nat.
+Lemma kfull_of_kch s s' : mid s s' -> kch s s' -> kfull s s'.
+Proof.
+  intros Hm K ch ch' H0 H1 t. pose proof (mid_ch _ _ Hm c h) as C. unfold mid_chan in C. rewrite H0, H1 in C. destruct C as (_ & _ & cc & _).
+  rewrite !where_ch_nc, !cnt_app, !cur_part_CP, cc, (CP_ci _ _ _ (mid_heap _ _ Hm)). specialize (K ch ch' H0 H1 t). lia.
+Qed.
+
+Lemma finish_publish_kfull fx s c2 h2 u ch2 :
+  fx_clear_current fx = true -> Units s -> get_chan s c2 h2 = Some ch2 -> ch_cur ch2 = Some u -> not_closed s ->
+  kfull s (fst (finish_publish fx s c2 h2 u)).
+Proof.
+  intros Hfx Hu Hgc Hcur Hnc. pose proof (un_aux _ Hu) as Ha.
+  pose proof (route_and_push_midc fx s c2 h2 u ch2 Ha Hgc Hcur) as Hmc.
+  destruct (aux_cur _ Ha c2 h2 ch2 Hgc u Hcur) as [Hult Hown].
+  (* what routing does to where_nc of the tracked channel *)
+  assert (Hroute : forall ch ch1, get_chan s c h = Some ch -> get_chan (fst (route_and_push fx s c2 h2 u)) c h = Some ch1 ->
+            forall t, (cnt t (where_nc s c h ch) + cnt t (credit_cur s c2 h2 u c h) <= cnt t (where_nc (fst (route_and_push fx s c2 h2 u)) c h ch1))%nat).
+  { unfold route_and_push. destruct (get_msg s u) as [m|] eqn:Hm; cbn [fst].
+    2:{ intros ch ch1 H0 H1 t. rewrite H0 in H1. inversion H1; subst. unfold credit_cur, cur_part. rewrite Hm. destruct (_ && _); cbn; lia. }
+    specialize (Hown m eq_refl).
+    assert (Hfacts : m_conf m <> None -> ch_confirm ch2 = true /\ m_expected m = 0%Z /\ m_actual m = 0%Z).
+    { intros Hcf. destruct (un_c1 _ Hu c2 h2 ch2 u m Hgc Hcur Hm Hcf) as [X Y].
+      destruct (un_max _ Hu u m (alookup_in N.eqb Neqb_spec _ _ _ Hm) Hcf) as [P1 P2].
+      pose proof (Nat2Z.is_nonneg (pending s u)). unfold pend in P2. repeat split; auto; lia. }
+    assert (Hunr : forall ch ch1, get_chan s c h = Some ch -> get_chan (add_confirm s c2 h2 (live_conf s m)) c h = Some ch1 ->
+              forall t, (cnt t (where_nc s c h ch) + cnt t (credit_cur s c2 h2 u c h) <= cnt t (where_nc (add_confirm s c2 h2 (live_conf s m)) c h ch1))%nat).
+    { intros ch ch1 H0 H1 t. destruct (add_confirm_frame s c2 h2 (live_conf s m)) as [F1 F2].
+      unfold credit_cur, cur_part. rewrite Hm. destruct ((c =? c2) && (h =? h2)) eqn:Eb.
+      - apply andb_prop in Eb. destruct Eb as [E1 E2]. apply N.eqb_eq in E1, E2. subst c2 h2. rewrite Hgc in H0. inversion H0; subst ch.
+        destruct (m_conf m) as [[[c0 h0] t0]|] eqn:Ecf.
+        + destruct (Hown c0 h0 t0 eq_refl) as (-> & -> & Hi). destruct (Hfacts ltac:(discriminate)) as (Hcf & _).
+          revert H1. unfold live_conf. rewrite Ecf, Hgc, Hi, N.eqb_refl. rewrite (add_confirm_live s ch2 t0 c h Hgc Hcf (Hnc ch2 Hgc)).
+          rewrite (get_chan_set_chan_same s c h _ (get_chan_conn _ _ _ _ Hgc)). intros H1. inversion H1; subst ch1.
+          set (chx := ch2 <| ch_confirmq ::= fun l => l ++ [t0] |>). destruct (set_chan_frame s c h chx) as (G1 & G2 & _).
+          rewrite !where_nc_alt, G1, G2. rewrite (chan_inst_set_chan s c h ch2 chx c h Hgc eq_refl). cbn [ch_confirmq ch_inst set chx].
+          rewrite !cnt_app. lia.
+        + revert H1. unfold live_conf. rewrite Ecf, add_confirm_none. intros H1. rewrite Hgc in H1. inversion H1; subst. cbn. lia.
+      - assert (Eb' : (c2 =? c) && (h2 =? h) = false) by (rewrite (N.eqb_sym c2 c), (N.eqb_sym h2 h); exact Eb).
+        rewrite (add_confirm_other s c2 h2 _ Eb') in H1. rewrite H0 in H1. inversion H1; subst ch1.
+        rewrite !where_nc_alt, F1, F2. unfold chan_inst. rewrite (add_confirm_other s c2 h2 _ Eb'). cbn. lia. }
+    destruct (alookup seqb (m_ex m) (exchanges s)) as [ex|]; cbn [fst]; [|exact Hunr].
+    destruct (matched_queues _ ex (m_key m)) as [|q1 qs] eqn:Eqs; cbn [fst]; [exact Hunr|]. clear Hunr.
+    rewrite Hgc.
+    set (has_meta := match m_conf m with Some _ => true | None => false end).
+    set (n := List.length (q1 :: qs)).
+    set (sa := if ch_confirm ch2 && has_meta then upd_msg s u (fun m => m <| m_expected := Z.of_nat n |>) else s).
+    set (ma := if ch_confirm ch2 && has_meta then m <| m_expected := Z.of_nat n |> else m).
+    assert (Hsa : get_msg sa u = Some ma /\ heap sa = aset N.eqb u ma (heap s) /\ conns sa = conns s /\ relay sa = relay s /\
+                  ci ma = ci m /\ m_pers ma = m_pers m).
+    { subst sa ma. destruct (ch_confirm ch2 && has_meta).
+      - unfold upd_msg. rewrite Hm. unfold get_msg. cbn. rewrite (alookup_aset N.eqb Neqb_spec), N.eqb_refl. repeat split; reflexivity.
+      - repeat split; auto. unfold get_msg in Hm. rewrite (aset_same _ _ _ Hm). reflexivity. }
+    destruct Hsa as (Hga & Hha & Hca & Hra & Ecia & Epa). inversion Ecia as [[Ea1 Ea2]].
+    assert (Hmeta : has_meta = true <-> m_conf ma <> None).
+    { subst has_meta. rewrite Ea1. destruct (m_conf m); split; congruence. }
+    assert (Hgd : push_guard sa c2 h2 ma).
+    { intros Eb Hcf cha Hgca. apply andb_prop in Eb. destruct Eb as [E1 E2]. apply N.eqb_eq in E1, E2. subst c2 h2.
+      rewrite (get_chan_same_conns _ _ _ _ Hca), Hgc in Hgca. inversion Hgca; subst cha. rewrite Ea1 in Hcf.
+      destruct (Hfacts Hcf) as (X & _). rewrite Ea2. destruct (m_conf m) as [[[c0 h0] t0]|] eqn:Ecf; [|congruence].
+      destruct (Hown c0 h0 t0 eq_refl) as (_ & _ & Hi). repeat split; auto. }
+    pose proof (fold_push_kch c2 h2 u (m_pers m) has_meta (q1 :: qs) sa ma Hga Epa Hmeta) as Kf.
+    assert (Hown' : forall c0 h0 t, m_conf ma = Some (c0, h0, t) -> c0 = c2 /\ h0 = h2).
+    { intros c0 h0 t Hx. rewrite Ea1 in Hx. destruct (Hown c0 h0 t Hx) as (a & b & _). auto. }
+    specialize (Kf Hown' Hgd).
+    intros ch ch1 H0 H1 t.
+    assert (H0a : get_chan sa c h = Some ch) by (rewrite (get_chan_same_conns _ _ _ _ Hca); exact H0).
+    specialize (Kf ch ch1 H0a H1 t). 
+    (* s -> sa *)
+    assert (Hs_sa : (cnt t (where_nc s c h ch) + cnt t (credit_cur s c2 h2 u c h) <= cnt t (where_nc sa c h ch))%nat); [|lia].
+    rewrite !where_nc_alt. unfold chan_inst. rewrite H0a, H0, Hha, Hra. unfold get_msg in Hm.
+    rewrite (RP_aset_ci _ _ _ _ _ m ma _ Hm Ecia). rewrite !cnt_app.
+    pose proof (cnt_HP_aset c h (ch_inst ch) (heap s) u m ma t Hm) as He. rewrite !cnt_hp1 in He.
+    unfold credit_cur, cur_part, get_msg. rewrite Hm. rewrite Ea1 in He.
+    destruct (m_conf m) as [[[c0 h0] t0]|] eqn:Ecf; [|destruct ((c =? c2) && (h =? h2)); cbn; lia].
+    destruct (Hown c0 h0 t0 eq_refl) as (-> & -> & Hi). destruct (Hfacts ltac:(discriminate)) as (Hcf & Hex & Hac).
+    rewrite (N.eqb_sym c2 c), (N.eqb_sym h2 h) in He.
+    destruct ((c =? c2) && (h =? h2)) eqn:Eb; cbn [andb] in *; [|cbn; lia].
+    apply andb_prop in Eb. destruct Eb as [E1 E2]. apply N.eqb_eq in E1, E2. subst c2 h2. rewrite Hgc in H0. inversion H0; subst ch.
+    rewrite cnt_one. subst ma. rewrite Hcf in *. subst has_meta. cbn [andb] in *. cbn [m_inst m_actual m_expected set] in He.
+    rewrite Hi, N.eqb_refl, Hex, Hac in He. cbn [andb] in He.
+    assert (Hn : (0 <? Z.of_nat n)%Z = true) by (subst n; cbn [List.length]; lia). rewrite Hn in He. change (0 <? 0)%Z with false in He. cbn [andb] in He.
+    destruct (t0 =? t); lia. }
+  unfold finish_publish. destruct (route_and_push fx s c2 h2 u) as [s1 e1]. cbn [fst] in *. rewrite Hfx.
+  pose proof (midc_ch _ _ _ Hmc c2 h2) as C2. unfold midc_chan in C2. rewrite Hgc in C2.
+  destruct (get_chan s1 c2 h2) as [ch21|] eqn:Hg21; [|tauto]. destruct C2 as (Ci2 & _ & Ccur2 & _).
+  unfold upd_chan. rewrite Hg21. set (chz := ch21 <| ch_cur := None |>).
+  destruct (set_chan_frame s1 c2 h2 chz) as (F1 & F2 & _).
+  intros ch ch' H0 H1 t. rewrite get_chan_set_chan in H1. pose proof (get_chan_conn _ _ _ _ Hg21) as Hcn. destruct (get_conn s1 c2) as [cn|] eqn:Ecn; [|congruence].
+  destruct ((c =? c2) && (h =? h2)) eqn:Eb.
+  - apply andb_prop in Eb. destruct Eb as [E1 E2]. apply N.eqb_eq in E1, E2. subst c2 h2. inversion H1; subst ch'. rewrite Hgc in H0. inversion H0; subst ch.
+    specialize (Hroute ch2 ch21 Hgc Hg21 t). unfold credit_cur in Hroute. rewrite !N.eqb_refl in Hroute. cbn [andb] in Hroute.
+    rewrite !where_ch_nc. cbn [ch_cur set chz cur_part]. rewrite app_nil_r, cnt_app, Hcur.
+    rewrite (where_nc_frame s1 _ c h chz F1 F2 (chan_inst_set_chan s1 c h ch21 chz c h Hg21 eq_refl)).
+    change (where_nc s1 c h chz) with (where_nc s1 c h ch21). lia.
+  - specialize (Hroute ch ch' H0 H1 t). unfold credit_cur in Hroute. rewrite Eb in Hroute. cbn in Hroute.
+    pose proof (midc_ch _ _ _ Hmc c h) as C. unfold midc_chan in C. rewrite H0, H1 in C. destruct C as (_ & _ & Ccur & _).
+    rewrite !where_ch_nc, !cnt_app.
+    rewrite (where_nc_frame s1 _ c h ch' F1 F2 (chan_inst_set_chan s1 c2 h2 ch21 chz c h Hg21 eq_refl)).
+    rewrite (cur_part_frame s1 _ _ F1), Ccur, !cur_part_CP, (CP_ci _ _ _ (midc_heap _ _ _ Hmc)). lia.
+Qed.
+
+(* ---- what a step (or part of one) keeps of the numbers of channel (c,h) ---- *)
+Definition covnew (s' : state) (evs : list event) (ch' : channel) : Prop :=
+  forall t, 1 <= t <= ch_ctag ch' -> In t (acks_of c h evs ++ where_ch s' c h ch').
+Definition keep_ch (s s' : state) (evs : list event) : Prop :=
+  match get_chan s' c h with
+  | None => True
+  | Some ch' =>
+    match get_chan s c h with
+    | Some ch => if ch_inst ch' =? ch_inst ch
+                 then (forall t, (cnt t (where_ch s c h ch) <= cnt t (acks_of c h evs ++ where_ch s' c h ch'))%nat) /\
+                      (forall t, ch_ctag ch < t <= ch_ctag ch' -> In t (acks_of c h evs ++ where_ch s' c h ch'))
+                 else covnew s' evs ch'
+    | None => covnew s' evs ch'
+    end
+  end.
+
+Lemma covnew_same s1 s2 e2 ch1 ch2 :
+  covnew s1 [] ch1 ->
+  (forall t, (cnt t (where_ch s1 c h ch1) <= cnt t (acks_of c h e2 ++ where_ch s2 c h ch2))%nat) ->
+  (forall t, ch_ctag ch1 < t <= ch_ctag ch2 -> In t (acks_of c h e2 ++ where_ch s2 c h ch2)) ->
+  covnew s2 e2 ch2.
+Proof.
+  intros C1 K N t Ht. destruct (N.le_gt_cases t (ch_ctag ch1)) as [Hle|Hgt].
+  - assert (Hin : In t (where_ch s1 c h ch1)) by (apply (C1 t); lia). apply cnt_in in Hin. apply cnt_in. specialize (K t). lia.
+  - apply N. lia.
+Qed.
+
+Lemma keep_compose s0 s1 s2 e1 e2 :
+  (get_chan s1 c h = None -> get_chan s0 c h = None \/ get_chan s2 c h = None) ->
+  nb e1 = true -> trans s0 s1 e1 -> trans s1 s2 e2 -> keep_ch s0 s1 e1 -> keep_ch s1 s2 e2 -> keep_ch s0 s2 (e1 ++ e2).
+Proof.
+  intros Hres Hn T1 T2 K1 K2. specialize (T1 c h). specialize (T2 c h). unfold trans_ch, keep_ch, covnew in *.
+  rewrite acks_of_app, (nb_acks c h e1 Hn) in *. cbn [app] in *.
+  destruct (get_chan s2 c h) as [ch2|] eqn:Hg2; [|exact I].
+  destruct (get_chan s1 c h) as [ch1|] eqn:Hg1.
+  2:{ destruct (Hres eq_refl) as [E|E]; [|discriminate]. rewrite E. exact K2. }
+  destruct (get_chan s0 c h) as [ch0|] eqn:Hg0.
+  2:{ destruct (ch_inst ch2 =? ch_inst ch1); [|exact K2]. destruct K2 as [Ka Kb]. apply (covnew_same s1 s2 e2 ch1 ch2); [exact K1|exact Ka|exact Kb]. }
+  assert (M1 : ch_inst ch0 <= ch_inst ch1 /\ (ch_inst ch1 = ch_inst ch0 -> ch_ctag ch0 <= ch_ctag ch1)).
+  { destruct T1 as [(a & b & _)|(a & _)]; split; try lia. }
+  assert (M2 : ch_inst ch1 <= ch_inst ch2 /\ (ch_inst ch2 = ch_inst ch1 -> ch_ctag ch1 <= ch_ctag ch2)).
+  { destruct T2 as [(a & b & _)|(a & _)]; split; try lia. }
+  destruct (ch_inst ch2 =? ch_inst ch0) eqn:E20.
+  - apply N.eqb_eq in E20. assert (E10 : ch_inst ch1 = ch_inst ch0) by lia. assert (E21 : ch_inst ch2 = ch_inst ch1) by lia.
+    rewrite (proj2 (N.eqb_eq _ _) E10) in K1. rewrite (proj2 (N.eqb_eq _ _) E21) in K2. destruct K1 as [Ka1 Kb1], K2 as [Ka2 Kb2]. split.
+    + intros t. specialize (Ka1 t). specialize (Ka2 t). lia.
+    + intros t Ht. destruct (N.le_gt_cases t (ch_ctag ch1)) as [Hle|Hgt].
+      * assert (Hin : In t (where_ch s1 c h ch1)) by (apply Kb1; lia). apply cnt_in in Hin. apply cnt_in. specialize (Ka2 t). lia.
+      * apply Kb2. lia.
+  - destruct (ch_inst ch1 =? ch_inst ch0) eqn:E10.
+    + apply N.eqb_eq in E10. apply N.eqb_neq in E20. destruct (ch_inst ch2 =? ch_inst ch1) eqn:E21; [apply N.eqb_eq in E21; congruence|exact K2].
+    + destruct (ch_inst ch2 =? ch_inst ch1) eqn:E21; [|exact K2]. destruct K2 as [Ka Kb]. apply (covnew_same s1 s2 e2 ch1 ch2); [exact K1|exact Ka|exact Kb].
+Qed.
+
+(* a part of a step that hands numbers on and drops none *)
+Lemma keep_of_mid s s' evs : mid s s' -> kch s s' -> nb evs = true -> keep_ch s s' evs.
+Proof.
+  intros Hm K Hn. unfold keep_ch. rewrite (nb_acks c h evs Hn). cbn [app].
+  pose proof (mid_ch _ _ Hm c h) as C. unfold mid_chan in C.
+  destruct (get_chan s' c h) as [ch'|] eqn:Hg'; [|exact I]. destruct (get_chan s c h) as [ch|] eqn:Hg; [|tauto].
+  destruct C as (a & b & _). rewrite a, N.eqb_refl. split; [exact (kfull_of_kch s s' Hm K ch ch' Hg Hg')|]. intros t Ht. lia.
+Qed.
+(* the record of (c,h), the heap and the relay are what they were *)
+Lemma keep_same s s' evs : get_chan s' c h = get_chan s c h -> heap s' = heap s -> relay s' = relay s -> acks_of c h evs = [] -> keep_ch s s' evs.
+Proof.
+  intros Hg Hh Hr Hn. unfold keep_ch. rewrite Hg, Hn. cbn [app]. destruct (get_chan s c h) as [ch|] eqn:E; [|exact I].
+  rewrite N.eqb_refl. split; [|intros t Ht; lia]. intros t.
+  rewrite !where_ch_nc, (where_nc_frame s s' c h ch Hh Hr), (cur_part_frame s s' _ Hh); [lia|]. unfold chan_inst. rewrite Hg, E. reflexivity.
+Qed.
+(* a new instance with counter 0 *)
+Lemma keep_fresh s s' evs ch' : get_chan s' c h = Some ch' -> ch_ctag ch' = 0 ->
+  (forall ch, get_chan s c h = Some ch -> ch_inst ch' <> ch_inst ch) -> keep_ch s s' evs.
+Proof.
+  intros Hg' Hc Hne. unfold keep_ch. rewrite Hg'. assert (Hcov : covnew s' evs ch') by (intros t Ht; lia).
+  destruct (get_chan s c h) as [ch|]; auto. specialize (Hne ch eq_refl). apply N.eqb_neq in Hne. rewrite Hne. exact Hcov.
+Qed.
+
+(* ---- the pieces of a step ---- *)
+Definition TK (s s' : state) : Prop := TR0 s s' /\ keep_ch s s' [].
+
+Lemma TK_mid s s' : Aux s -> mid s s' -> kch s s' -> TK s s'.
+Proof. intros Ha Hm K. split; [apply TR0_mid; auto|apply keep_of_mid; auto]. Qed.
+Lemma TK_vle s s' : Aux s -> vle s s' -> TK s s'.
+Proof. intros Ha Hv. apply TK_mid; auto; [apply vle_mid|apply kch_vle]; exact Hv. Qed.
+Lemma TK_refl s : Aux s -> TK s s.
+Proof. intros Ha. apply TK_mid; auto; [apply mid_refl|apply kch_refl]. Qed.
+Lemma TK_seq s0 s1 s2 :
+  (forall c' h', get_chan s1 c' h' = None -> get_chan s0 c' h' = None \/ get_chan s2 c' h' = None) ->
+  TK s0 s1 -> TK s1 s2 -> TK s0 s2.
+Proof.
+  intros Hres [T1 K1] [T2 K2]. split; [eapply TR0_seq; eauto|].
+  change (@nil event) with (@nil event ++ @nil event). apply (keep_compose s0 s1 s2); auto; [apply (proj2 T1)|apply (proj2 T2)].
+Qed.
+Lemma TK_then_mid s0 s1 s2 : TK s0 s1 -> mid s1 s2 -> kch s1 s2 -> TK s0 s2.
+Proof.
+  intros H1 Hm K. eapply TK_seq; [|exact H1|apply TK_mid; [exact (proj1 (proj1 H1))|exact Hm|exact K]].
+  intros c' h' Hn. right. apply (mid_none _ _ c' h' Hm). exact Hn.
+Qed.
+Lemma TK_mid_then s0 s1 s2 : Aux s0 -> mid s0 s1 -> kch s0 s1 -> (Aux s1 -> TK s1 s2) -> TK s0 s2.
+Proof.
+  intros Ha Hm K H2. pose proof (TK_mid _ _ Ha Hm K) as H1. eapply TK_seq; [|exact H1|apply H2; exact (proj1 (proj1 H1))].
+  intros c' h' Hn. left. apply (mid_none _ _ c' h' Hm). exact Hn.
+Qed.
+
+Lemma ensure_chan_keep s c2 h2 : keep_ch s (ensure_chan s c2 h2) [].
+Proof.
+  destruct (get_chan s c h) as [ch|] eqn:Hg.
+  - apply keep_same; auto; [rewrite (get_chan_ensure_mono s c2 h2 c h ch Hg); auto| |];
+      unfold ensure_chan; destruct (get_conn s c2); auto; destruct (alookup _ _ _); reflexivity.
+  - destruct (get_chan (ensure_chan s c2 h2) c h) as [ch'|] eqn:Hg'; [|unfold keep_ch; rewrite Hg'; exact I].
+    apply (keep_fresh s _ [] ch'); auto; [|intros ch X; congruence].
+    destruct (get_chan_ensure s c2 h2 c h ch' Hg') as [X|X]; [congruence|subst; reflexivity].
+Qed.
+Lemma TK_ensure_then s c2 h2 s2 : Aux s -> (Aux (ensure_chan s c2 h2) -> TK (ensure_chan s c2 h2) s2) -> TK s s2.
+Proof.
+  intros Ha H2. destruct (ensure_chan_tr s c2 h2 [] Ha eq_refl) as [A1 T1].
+  eapply TK_seq; [|split; [split; [exact A1|exact T1]|apply ensure_chan_keep]|apply H2; exact A1].
+  intros c' h' Hn. left. destruct (get_chan s c' h') as [x|] eqn:E; auto.
+  rewrite (get_chan_ensure_mono s c2 h2 c' h' x E) in Hn. discriminate.
+Qed.
+
+Lemma kch_set_chan s c2 h2 ch2 ch2' :
+  get_chan s c2 h2 = Some ch2 -> ch_inst ch2' = ch_inst ch2 -> ch_confirmq ch2' = ch_confirmq ch2 -> kch s (set_chan s c2 h2 ch2').
+Proof.
+  intros Hg Ei Eq ch ch' H0 H1 t. destruct (set_chan_frame s c2 h2 ch2') as (F1 & F2 & _).
+  rewrite (where_nc_frame s _ c h ch' F1 F2 (chan_inst_set_chan s c2 h2 ch2 ch2' c h Hg Ei)).
+  rewrite get_chan_set_chan in H1. pose proof (get_chan_conn _ _ _ _ Hg). destruct (get_conn s c2); [|congruence].
+  destruct ((c =? c2) && (h =? h2)) eqn:Eb.
+  - apply andb_prop in Eb. destruct Eb as [E1 E2]. apply N.eqb_eq in E1, E2. subst c2 h2. inversion H1; subst ch'. rewrite Hg in H0. inversion H0; subst ch.
+    unfold where_nc. rewrite Eq, Ei. lia.
+  - rewrite H0 in H1. inversion H1; subst. lia.
+Qed.
+
+Lemma del_conn_keep s c0 : keep_ch s (s <| conns := adel N.eqb c0 (conns s) |>) [].
+Proof.
+  destruct (c =? c0) eqn:E.
+  - unfold keep_ch. rewrite get_chan_del_conn, E. exact I.
+  - apply keep_same; auto. rewrite get_chan_del_conn, E. reflexivity.
+Qed.
+
+Lemma conn_close_tk cfg fx s c0 : Aux s ->
+  TK s (fst (conn_close cfg fx s c0)) /\
+  (forall c' h', get_chan s c' h' = None -> get_chan (fst (conn_close cfg fx s c0)) c' h' = None).
+Proof.
+  intros Ha. split; [|apply (conn_close_tr cfg fx s c0 Ha)].
+  unfold conn_close. destruct (get_conn s c0) as [cn|]; [|apply TK_refl; auto].
+  set (s1 := fold_left _ _ s).
+  assert (H1 : vle s s1) by (subst s1; apply fold_left_preserves; [intros; apply V_channel_close; auto|apply vle_refl]).
+  clearbody s1.
+  pose proof (V_delete_fold s (negb (fx_delete_checks_first fx))
+                (map fst (filter (fun kv => q_excl (snd kv) && (q_owner (snd kv) =? c0)) (queues s1))) s1 [] H1) as Hd.
+  destruct (fold_left _ _ (s1, [])) as [s2 e2]. cbn [fst] in *.
+  apply (TK_mid_then s s2); auto; [apply vle_mid; exact Hd|apply kch_vle; exact Hd|]. intros Ha2.
+  split; [apply (del_conn_tr s2 c0 []); auto|apply del_conn_keep].
+Qed.
+Lemma apply_err_tk s0 s c2 h2 r : TK s0 (fst (fst r)) -> TK s0 (fst (apply_err s c2 h2 r)).
+Proof.
+  intros H. assert (Hv : vle (fst (fst r)) (fst (apply_err s c2 h2 r))) by (apply V_apply_err; apply vle_refl).
+  eapply TK_then_mid; [exact H|apply vle_mid; exact Hv|apply kch_vle; exact Hv].
+Qed.
+Lemma apply_err_st_tk cfg fx opened s0 s c2 h2 r : TK s0 (fst (fst r)) -> TK s0 (fst (apply_err_st cfg fx opened s c2 h2 r)).
+Proof.
+  intros H. unfold apply_err_st. destruct opened; [apply apply_err_tk; auto|].
+  destruct (snd r) as [[| ]|]; try (apply apply_err_tk; auto).
+  pose proof (apply_err_tk s0 s c2 h2 r H) as H1. destruct (apply_err s c2 h2 r) as [s1 e1]. cbn [fst] in H1.
+  pose proof (conn_close_tk cfg fx s1 c2 (proj1 (proj1 H1))) as (H2 & H3). destruct (conn_close cfg fx s1 c2) as [s2 e2]. cbn [fst] in *.
+  eapply TK_seq; [|exact H1|exact H2]. intros c' h' Hn. right. apply H3. exact Hn.
+Qed.
+
+(* basic.publish: the new number is in flight; nothing is lost if the channel was not assembling a message *)
+Lemma publish_keep s c2 h2 ch2 ch2' m :
+  get_chan s c2 h2 = Some ch2 -> m_expected m = 0%Z -> m_actual m = 0%Z ->
+  ch_inst ch2' = ch_inst ch2 -> ch_confirmq ch2' = ch_confirmq ch2 -> ch_cur ch2' = Some (next_uid s) ->
+  ((m_conf m = None /\ ch_ctag ch2' = ch_ctag ch2) \/ (m_conf m = Some (c2, h2, ch_ctag ch2 + 1) /\ ch_ctag ch2' = ch_ctag ch2 + 1)) ->
+  ((c2 =? c) && (h2 =? h) = true -> ch_cur ch2 = None) -> Aux s ->
+  keep_ch s (set_chan (s <| heap := aset N.eqb (next_uid s) m (heap s) |> <| next_uid := next_uid s + 1 |>) c2 h2 ch2') [].
+Proof.
+  intros Hg Eex Eac Ei Eq Ecur Hconf Hnd [Hm Hc Hr].
+  set (u := next_uid s) in *. set (s1 := s <| heap := aset N.eqb u m (heap s) |> <| next_uid := u + 1 |>).
+  destruct (set_chan_frame s1 c2 h2 ch2') as (F1 & F2 & _). cbn [heap relay set s1] in F1, F2.
+  pose proof (get_chan_conn _ _ _ _ Hg) as Hcn. destruct (get_conn s c2) as [cn|] eqn:Ecn; [|congruence]. clear Hcn.
+  assert (Ecn1 : get_conn s1 c2 = Some cn) by exact Ecn.
+  assert (Hfresh : alookup N.eqb u (heap s) = None).
+  { destruct (alookup N.eqb u (heap s)) as [m0|] eqn:E; auto. apply (alookup_in N.eqb Neqb_spec) in E. destruct (Hm u m0 E) as [Hx _]. unfold u in Hx. lia. }
+  assert (Hgc : forall c1 h1, get_chan (set_chan s1 c2 h2 ch2') c1 h1 = if (c1 =? c2) && (h1 =? h2) then Some ch2' else get_chan s c1 h1).
+  { intros c1 h1. rewrite get_chan_set_chan, Ecn1. reflexivity. }
+  assert (Hnw : forall c1 h1 i, hp1 c1 h1 i m = []).
+  { intros c1 h1 i. unfold hp1, waiting. rewrite Eex, Eac. cbn. rewrite andb_false_r. reflexivity. }
+  assert (Hrl : forall x, In x (relay s) -> x <> u) by (intros x Hx; specialize (Hr x Hx); unfold u; lia).
+  unfold keep_ch. rewrite Hgc. cbn [acks_of flat_map app].
+  destruct ((c =? c2) && (h =? h2)) eqn:Eb.
+  - apply andb_prop in Eb. destruct Eb as [E1 E2]. apply N.eqb_eq in E1, E2. subst c2 h2. rewrite Hg, Ei, N.eqb_refl.
+    assert (Hcn0 : ch_cur ch2 = None) by (apply Hnd; rewrite !N.eqb_refl; reflexivity).
+    assert (Hw : forall t, cnt t (where_ch (set_chan s1 c h ch2') c h ch2') =
+                           (cnt t (where_ch s c h ch2) + cnt t (CP (aset N.eqb u m (heap s)) (Some u)))%nat).
+    { intros t. rewrite !where_ch_nc, !where_nc_alt, !cur_part_CP, F1, F2. unfold chan_inst. rewrite Hgc, !N.eqb_refl, Hg. cbn [andb].
+      rewrite Ei, Eq, Ecur, Hcn0, (RP_aset_fresh _ _ _ _ _ _ _ Hrl), (HP_aset_new _ _ _ _ _ _ Hfresh), Hnw, app_nil_r. rewrite !cnt_app. cbn [CP]. rewrite cnt_nil. lia. }
+    split; [intros t; rewrite Hw; lia|]. intros t Ht. apply cnt_in. rewrite Hw. unfold CP. rewrite (alookup_aset N.eqb Neqb_spec), N.eqb_refl.
+    destruct Hconf as [[E0 E1]|[E0 E1]]; [lia|]. rewrite E0, cnt_one. assert (t = ch_ctag ch2 + 1) by lia. subst t. rewrite N.eqb_refl. lia.
+  - destruct (get_chan s c h) as [ch|] eqn:Hgg; [|exact I]. rewrite N.eqb_refl. split; [|intros t Ht; lia]. intros t.
+    rewrite !where_ch_nc, !where_nc_alt, !cur_part_CP, F1, F2. unfold chan_inst. rewrite Hgc, Eb, Hgg.
+    rewrite (RP_aset_fresh _ _ _ _ _ _ _ Hrl), (HP_aset_new _ _ _ _ _ _ Hfresh), Hnw, app_nil_r.
+    assert (Ecp : CP (aset N.eqb u m (heap s)) (ch_cur ch) = CP (heap s) (ch_cur ch)).
+    { unfold CP. destruct (ch_cur ch) as [u1|] eqn:Eu1; auto. rewrite (alookup_aset N.eqb Neqb_spec).
+      destruct (Hc c h ch Hgg u1 Eu1) as [Hlt _]. destruct (u1 =? u) eqn:Eu; [apply N.eqb_eq in Eu; unfold u in Eu; lia|reflexivity]. }
+    rewrite Ecp. lia.
+Qed.
+
+Definition publish_ok (s : state) (c2 h2 : N) (m : meth) : Prop :=
+  match m with
+  | MPublish _ _ _ _ => (c2 =? c) && (h2 =? h) = true -> forall ch, get_chan s c h = Some ch -> ch_cur ch = None
+  | _ => True
+  end.
+
+Lemma handle_method_tk cfg fx s c2 h2 m : Aux s -> publish_ok s c2 h2 m -> TK s (fst (fst (handle_method cfg fx s c2 h2 m))).
+Proof.
+  intros Ha Hpo. destruct (confirm_method m) eqn:Hcm; [|apply TK_vle; auto; apply V_handle_method; auto].
+  split; [apply handle_method_tr; auto|].
+  unfold handle_method. destruct (get_chan s c2 h2) as [ch2|] eqn:Hch; [|apply keep_of_mid; auto; [apply mid_refl|apply kch_refl]].
+  assert (Hst : forall chx, ch_inst chx = ch_inst ch2 -> ch_ctag chx = ch_ctag ch2 -> ch_cur chx = ch_cur ch2 -> ch_confirmq chx = ch_confirmq ch2 ->
+                keep_ch s (set_chan s c2 h2 chx) []).
+  { intros chx E1 E2 E3 E4. apply keep_of_mid; auto; [apply (mid_set_chan s c2 h2 ch2); auto|apply (kch_set_chan s c2 h2 ch2); auto]. }
+  destruct m; try discriminate; unfold ok, refuse.
+  - destruct (ch_status ch2) eqn:Est; cbn [fst]; try (apply Hst; reflexivity); try (apply keep_of_mid; auto; [apply mid_refl|apply kch_refl]).
+    destruct (fx_reopen_resets fx); [|apply Hst; reflexivity].
+    match goal with |- keep_ch s (set_chan s c2 h2 ?chx) [] => set (ch' := chx) end.
+    destruct (set_chan_frame s c2 h2 ch') as (F1 & F2 & _).
+    destruct ((c =? c2) && (h =? h2)) eqn:Eb.
+    + apply andb_prop in Eb. destruct Eb as [E1 E2]. apply N.eqb_eq in E1, E2. subst c2 h2.
+      apply (keep_fresh s _ [] ch'); [apply get_chan_set_chan_same; eapply get_chan_conn; eauto|reflexivity|].
+      intros ch X. rewrite Hch in X. inversion X; subst. cbn. lia.
+    + apply keep_same; auto. rewrite get_chan_set_chan. destruct (get_conn s c2); auto. rewrite Eb. reflexivity.
+  - destruct imm; [apply keep_of_mid; auto; [apply mid_refl|apply kch_refl]|].
+    destruct (alookup seqb ex (exchanges s)); [|apply keep_of_mid; auto; [apply mid_refl|apply kch_refl]].
+    assert (Hnd : (c2 =? c) && (h2 =? h) = true -> ch_cur ch2 = None).
+    { intros Eb. pose proof (Hpo Eb) as X. apply andb_prop in Eb. destruct Eb as [E1 E2]. apply N.eqb_eq in E1, E2. subst. exact (X ch2 Hch). }
+    destruct (ch_confirm ch2) eqn:Ecf; cbn [fst].
+    + apply (publish_keep s c2 h2 ch2); auto. right. cbn. split; [reflexivity|symmetry; apply N.add_1_r].
+    + apply (publish_keep s c2 h2 ch2); auto.
+  - cbn [fst]. apply Hst; reflexivity.
+Qed.
+
+(* the confirm ticker *)
+Lemma confirm_tick_keep cfg fx s c2 h2 : keep_ch s (fst (step cfg fx s (LConfirmTick c2 h2))) (snd (step cfg fx s (LConfirmTick c2 h2))).
+Proof.
+  cbn [step]. destruct (get_chan s c2 h2) as [ch2|] eqn:Hg; [|apply keep_same; auto].
+  destruct (negb (ch_ticker ch2)); [apply keep_same; auto|].
+  destruct (ch_status ch2) eqn:Est; cbn [fst snd].
+  4:{ apply keep_of_mid; auto; [apply (mid_set_chan s c2 h2 ch2); auto|apply (kch_set_chan s c2 h2 ch2); auto]. }
+  all: set (chz := ch2 <| ch_confirmq := [] |>).
+  all: destruct (set_chan_frame s c2 h2 chz) as (F1 & F2 & _).
+  all: destruct ((c =? c2) && (h =? h2)) eqn:Eb;
+    [apply andb_prop in Eb; destruct Eb as [E1 E2]; apply N.eqb_eq in E1, E2; subst c2 h2
+    |apply keep_same; auto; [rewrite get_chan_set_chan; destruct (get_conn s c2); auto; rewrite Eb; reflexivity
+                            |rewrite acks_of_map, (N.eqb_sym c2 c), (N.eqb_sym h2 h), Eb; reflexivity]].
+  all: unfold keep_ch; rewrite (get_chan_set_chan_same s c h chz (get_chan_conn _ _ _ _ Hg)), Hg; cbn [ch_inst set chz]; rewrite N.eqb_refl;
+       rewrite acks_of_map, !N.eqb_refl; cbn [andb]; (split; [|intros t Ht; cbn [ch_ctag set chz] in Ht; lia]); intros t;
+       rewrite !where_ch_nc; cbn [ch_cur set chz]; rewrite (cur_part_frame s _ _ F1);
+       rewrite (where_nc_frame s _ c h _ F1 F2 (chan_inst_set_chan s c h ch2 chz c h Hg eq_refl));
+       unfold where_nc; cbn [ch_confirmq ch_inst set chz]; rewrite !cnt_app, cnt_nil; lia.
+Qed.
+
+Lemma keep_of_kfull s s' :
+  (forall ch', get_chan s' c h = Some ch' -> exists ch, get_chan s c h = Some ch /\ ch_inst ch' = ch_inst ch /\ ch_ctag ch' = ch_ctag ch) ->
+  kfull s s' -> keep_ch s s' [].
+Proof.
+  intros Hc K. unfold keep_ch. destruct (get_chan s' c h) as [ch'|] eqn:Hg'; [|exact I].
+  destruct (Hc ch' eq_refl) as (ch & Hg & Ei & Ec). rewrite Hg, Ei, N.eqb_refl. cbn [acks_of flat_map app]. split; [exact (K ch ch' Hg Hg')|intros t Ht; lia].
+Qed.
+Lemma finish_publish_corr fx s c2 h2 u ch2 ch' :
+  fx_clear_current fx = true -> Aux s -> get_chan s c2 h2 = Some ch2 -> ch_cur ch2 = Some u ->
+  get_chan (fst (finish_publish fx s c2 h2 u)) c h = Some ch' ->
+  exists ch, get_chan s c h = Some ch /\ ch_inst ch' = ch_inst ch /\ ch_ctag ch' = ch_ctag ch.
+Proof.
+  intros Hfx Ha Hgc Hcur. pose proof (route_and_push_midc fx s c2 h2 u ch2 Ha Hgc Hcur) as Hmc. unfold finish_publish.
+  destruct (route_and_push fx s c2 h2 u) as [s1 e1]. cbn [fst] in *. rewrite Hfx. intros Hg'.
+  assert (Hg1 : exists ch1, get_chan s1 c h = Some ch1 /\ ch_inst ch' = ch_inst ch1 /\ ch_ctag ch' = ch_ctag ch1).
+  { unfold upd_chan in Hg'. destruct (get_chan s1 c2 h2) as [ch21|] eqn:E21; [|eauto].
+    rewrite get_chan_set_chan in Hg'. pose proof (get_chan_conn _ _ _ _ E21). destruct (get_conn s1 c2); [|congruence].
+    destruct ((c =? c2) && (h =? h2)) eqn:Eb; [|eauto].
+    apply andb_prop in Eb. destruct Eb as [E1 E2]. apply N.eqb_eq in E1, E2. subst c2 h2. inversion Hg'; subst ch'. exists ch21. auto. }
+  destruct Hg1 as (ch1 & Hg1 & Ei & Ec). pose proof (midc_ch _ _ _ Hmc c h) as C. unfold midc_chan in C. rewrite Hg1 in C.
+  destruct (get_chan s c h) as [ch|]; [|tauto]. destruct C as (a & b & _). exists ch. repeat split; congruence.
+Qed.
+Lemma finish_publish_keep fx s c2 h2 u ch2 :
+  fx_clear_current fx = true -> Units s -> get_chan s c2 h2 = Some ch2 -> ch_cur ch2 = Some u -> not_closed s ->
+  keep_ch s (fst (finish_publish fx s c2 h2 u)) [].
+Proof.
+  intros Hfx Hu Hgc Hcur Hnc. apply keep_of_kfull; [|apply (finish_publish_kfull fx s c2 h2 u ch2); auto].
+  pose proof (route_and_push_midc fx s c2 h2 u ch2 (un_aux _ Hu) Hgc Hcur) as Hmc. unfold finish_publish.
+  destruct (route_and_push fx s c2 h2 u) as [s1 e1]. cbn [fst] in *. rewrite Hfx. intros ch' Hg'.
+  assert (Hg1 : exists ch1, get_chan s1 c h = Some ch1 /\ ch_inst ch' = ch_inst ch1 /\ ch_ctag ch' = ch_ctag ch1).
+  { unfold upd_chan in Hg'. destruct (get_chan s1 c2 h2) as [ch21|] eqn:E21; [|eauto].
+    rewrite get_chan_set_chan in Hg'. pose proof (get_chan_conn _ _ _ _ E21). destruct (get_conn s1 c2); [|congruence].
+    destruct ((c =? c2) && (h =? h2)) eqn:Eb; [|eauto].
+    apply andb_prop in Eb. destruct Eb as [E1 E2]. apply N.eqb_eq in E1, E2. subst c2 h2. inversion Hg'; subst ch'. exists ch21. auto. }
+  destruct Hg1 as (ch1 & Hg1 & Ei & Ec). pose proof (midc_ch _ _ _ Hmc c h) as C. unfold midc_chan in C. rewrite Hg1 in C.
+  destruct (get_chan s c h) as [ch|]; [|tauto]. destruct C as (a & b & _). exists ch. repeat split; congruence.
+Qed.
+
+Lemma new_conn_keep s c2 cn : get_conn s c2 = None -> cn_chans cn = [(0, channel0)] -> keep_ch s (s <| conns := aset N.eqb c2 cn (conns s) |>) [].
+Proof.
+  intros Ecn Hch. set (s1 := s <| conns := _ |>).
+  assert (Hgc : get_chan s1 c h = if c =? c2 then (if h =? 0 then Some channel0 else None) else get_chan s c h).
+  { unfold s1, get_chan, get_conn. cbn. rewrite (alookup_aset N.eqb Neqb_spec). destruct (c =? c2) eqn:E1; [|reflexivity].
+    rewrite Hch. cbn. destruct (h =? 0); reflexivity. }
+  destruct (c =? c2) eqn:E1.
+  - destruct (h =? 0) eqn:E2; [|unfold keep_ch; rewrite Hgc; exact I].
+    apply (keep_fresh s s1 [] channel0); auto. apply N.eqb_eq in E1. subst c2. intros ch X. unfold get_chan in X. rewrite Ecn in X. discriminate.
+  - apply keep_same; auto.
+Qed.
+
+(* the drop points of channel (c,h) *)
+Definition cur_of (s : state) : option N := match get_chan s c h with Some ch => ch_cur ch | None => None end.
+Definition drops (s : state) (l : label) : bool :=
+  match l with
+  | LMethod c2 h2 (MPublish _ _ _ _) => (c2 =? c) && (h2 =? h) && match cur_of s with Some _ => true | None => false end
+  | LBody c2 h2 len => (c2 =? c) && (h2 =? h) &&
+                       match cur_of s with
+                       | Some u => match get_msg s u with Some m => m_hsize m <? m_size m + len | None => false end
+                       | None => false
+                       end
+  | _ => false
+  end.
+
+Lemma heap_ensure_chan s c2 h2 : heap (ensure_chan s c2 h2) = heap s.
+Proof. unfold ensure_chan. destruct (get_conn s c2); auto. destruct (alookup _ _ _); reflexivity. Qed.
+Lemma not_closed_ensure s c2 h2 : not_closed s -> not_closed (ensure_chan s c2 h2).
+Proof. intros H ch Hg. destruct (get_chan_ensure s c2 h2 c h ch Hg) as [X|X]; [apply (H ch X)|subst; discriminate]. Qed.
+
+Lemma step_TK cfg fx s l :
+  fx_clear_current fx = true -> is_confirm_tick l = false -> Units s -> live_confirm s -> not_closed s -> fresh_step s l -> drops s l = false ->
+  TK s (fst (step cfg fx s l)).
+Proof.
+  intros Hfx Hl Hu Hlc Hnc Hfr Hnd. pose proof (un_aux _ Hu) as Ha.
+  destruct l as [c2|c2 h2 m|c2 h2 mid0 size pers|c2 h2 len|c2 h2 tag|q| | | |c2 h2|c2|c2|c2 h2|c2 h2| ]; try discriminate; cbn [step].
+  - (* LConnect *)
+    destruct (get_conn s c2) eqn:Ec; cbn [fst]; [apply TK_refl; auto|].
+    split; [apply (new_conn_tr s c2 _ []); auto|apply new_conn_keep; auto].
+  - (* LMethod *)
+    destruct (get_conn s c2) as [cn0|]; [|apply TK_refl; auto].
+    destruct (negb _ && negb _)%bool; [apply conn_close_tk; auto|].
+    apply (TK_ensure_then s c2 h2); [exact Ha|]. intros A0. set (s1 := ensure_chan s c2 h2) in *.
+    assert (Hpo : publish_ok s1 c2 h2 m).
+    { destruct m; try exact I. intros Eb ch Hg. cbn [drops] in Hnd. rewrite Eb in Hnd. cbn [andb] in Hnd. unfold cur_of in Hnd.
+      destruct (get_chan_ensure s c2 h2 c h ch Hg) as [X|X]; [|subst; reflexivity]. rewrite X in Hnd. destruct (ch_cur ch); [discriminate|reflexivity]. }
+    destruct m.
+    all: try (repeat match goal with |- context [if ?b then _ else _] => destruct b end;
+              first [ apply TK_refl; exact A0
+                    | apply apply_err_tk; first [ apply handle_method_tk; [exact A0|exact Hpo] | apply TK_refl; exact A0 ]
+                    | apply apply_err_st_tk; first [ apply handle_method_tk; [exact A0|exact Hpo] | apply TK_refl; exact A0 ] ]).
+    + destruct (fx_stage fx && negb (h2 =? 0)); [apply apply_err_tk; apply TK_refl; exact A0|].
+      pose proof (conn_close_tk cfg fx s1 c2 A0) as (Hc & _).
+      destruct (conn_close cfg fx s1 c2) as [s2 e2]. exact Hc.
+    + destruct (fx_stage fx && negb (h2 =? 0)); [apply apply_err_tk; apply TK_refl; exact A0|]. apply conn_close_tk; auto.
+  - (* LHeader *)
+    destruct (get_conn s c2) as [cn0|]; [|apply TK_refl; auto].
+    destruct (negb _ && negb _)%bool; [apply conn_close_tk; auto|].
+    apply (TK_ensure_then s c2 h2); [exact Ha|]. intros A0. set (s1 := ensure_chan s c2 h2) in *.
+    destruct (get_chan s1 c2 h2) as [ch2|] eqn:Hgc; [|apply TK_refl; auto].
+    destruct (_ && _)%bool; [apply TK_refl; auto|].
+    destruct (ch_cur ch2) as [u|] eqn:Ecur; [|apply apply_err_st_tk; apply TK_refl; auto].
+    destruct (get_msg s1 u) as [m|]; [|apply TK_refl; auto].
+    destruct (m_has_header m); [apply apply_err_st_tk; apply TK_refl; auto|].
+    set (s2 := upd_msg s1 u _).
+    assert (Hv2 : vle s1 s2) by (subst s2; apply vle_upd_msg; intros; reflexivity).
+    destruct (_ && _)%bool; [|apply TK_vle; auto].
+    apply (TK_mid_then s1 s2); auto; [apply vle_mid; exact Hv2|apply kch_vle; exact Hv2|]. intros A2.
+    assert (Hg2 : get_chan s2 c2 h2 = Some ch2) by (subst s2; unfold upd_msg; destruct (get_msg s1 u); exact Hgc).
+    assert (Hu2 : Units s2) by (apply (Units_vle s1); auto; apply Units_ensure; exact Hu).
+    assert (Hnc2 : not_closed s2).
+    { intros ch Hg. apply (not_closed_ensure s c2 h2 Hnc ch). subst s2. unfold upd_msg in Hg. destruct (get_msg s1 u); exact Hg. }
+    split; [apply (finish_publish_tr fx s2 c2 h2 u ch2 []); auto|].
+    apply (finish_publish_keep fx s2 c2 h2 u ch2); auto.
+  - (* LBody *)
+    destruct (get_conn s c2) as [cn0|]; [|apply TK_refl; auto].
+    destruct (negb _ && negb _)%bool; [apply conn_close_tk; auto|].
+    apply (TK_ensure_then s c2 h2); [exact Ha|]. intros A0. set (s1 := ensure_chan s c2 h2) in *.
+    destruct (get_chan s1 c2 h2) as [ch2|] eqn:Hgc; [|apply TK_refl; auto].
+    destruct (_ && _)%bool; [apply TK_refl; auto|].
+    destruct (ch_cur ch2) as [u|] eqn:Ecur; [|apply apply_err_st_tk; apply TK_refl; auto].
+    destruct (get_msg s1 u) as [m|] eqn:Hgm; [|apply TK_refl; auto].
+    destruct (negb (m_has_header m)); [apply apply_err_st_tk; apply TK_refl; auto|].
+    destruct (m_hsize m <? m_size m + len) eqn:Eov.
+    { apply apply_err_st_tk. cbn [fst refuse]. unfold upd_chan. rewrite Hgc.
+      split; [apply drop_tr; auto|].
+      (* not the tracked channel: its own message would be dropped *)
+      destruct ((c =? c2) && (h =? h2)) eqn:Eb.
+      - exfalso. apply andb_prop in Eb. destruct Eb as [E1 E2]. apply N.eqb_eq in E1, E2. subst c2 h2.
+        assert (Hgm0 : get_msg s u = Some m) by (unfold get_msg in *; rewrite <- (heap_ensure_chan s c h); exact Hgm).
+        cbn [drops] in Hnd. rewrite !N.eqb_refl in Hnd. cbn [andb] in Hnd. unfold cur_of in Hnd.
+        destruct (get_chan_ensure s c h c h ch2 Hgc) as [X|X]; [|subst; discriminate]. rewrite X, Ecur, Hgm0, Eov in Hnd. discriminate.
+      - destruct (set_chan_frame s1 c2 h2 (ch2 <| ch_cur := None |>)) as (F1 & F2 & _).
+        apply keep_same; auto. rewrite get_chan_set_chan. destruct (get_conn s1 c2); auto. rewrite Eb. reflexivity. }
+    set (s2 := upd_msg s1 u _).
+    assert (Hv2 : vle s1 s2) by (subst s2; apply vle_upd_msg; intros; reflexivity).
+    destruct (m_size m + len <? m_hsize m); [apply TK_vle; auto|].
+    apply (TK_mid_then s1 s2); auto; [apply vle_mid; exact Hv2|apply kch_vle; exact Hv2|]. intros A2.
+    assert (Hg2 : get_chan s2 c2 h2 = Some ch2) by (subst s2; unfold upd_msg; rewrite Hgm; exact Hgc).
+    assert (Hu2 : Units s2) by (apply (Units_vle s1); auto; apply Units_ensure; exact Hu).
+    assert (Hnc2 : not_closed s2).
+    { intros ch Hg. apply (not_closed_ensure s c2 h2 Hnc ch). subst s2. unfold upd_msg in Hg. rewrite Hgm in Hg. exact Hg. }
+    split; [apply (finish_publish_tr fx s2 c2 h2 u ch2 []); auto|].
+    apply (finish_publish_keep fx s2 c2 h2 u ch2); auto.
+  - apply TK_vle; auto. apply V_consumer_turn. apply vle_refl.
+  - cbn [fst]. apply TK_vle; auto. apply V_queue_loop_turn. apply vle_refl.
+  - destruct (autodel s) as [|qn rest]; [apply TK_refl; auto|].
+    assert (H0 : vle s (s <| autodel := rest |>)) by (vs; apply vle_refl).
+    destruct (get_queue _ qn) as [qu0|]; [|apply TK_vle; auto]. destruct (q_autodel qu0); [|apply TK_vle; auto].
+    pose proof (V_vhost_delete_queue s (negb (fx_delete_checks_first fx)) _ qn true false H0) as Hd.
+    destruct (vhost_delete_queue _ (s <| autodel := rest |>) qn true false) as [[s1 e1] r1]. apply TK_vle; auto.
+  - apply TK_mid; auto; [apply (persist_tick_mid cfg fx)|apply (persist_tick_kch cfg fx)].
+  - apply TK_mid; auto; [apply (relay_step_mid cfg fx)|apply (relay_step_kch cfg fx); auto].
+  - pose proof (conn_close_tk cfg fx s c2 Ha) as (Hc & _). destruct (conn_close cfg fx s c2) as [s1 e1]. exact Hc.
+  - (* LAccept *)
+    destruct (get_conn s c2) eqn:Ec; cbn [fst]; [apply TK_refl; auto|].
+    split; [apply (new_conn_tr s c2 _ []); auto|apply new_conn_keep; auto].
+  - (* LBadMethod *)
+    destruct (get_conn s c2) as [cn0|]; [|apply TK_refl; auto].
+    destruct (negb _ && negb _)%bool; [apply conn_close_tk; auto|].
+    apply (TK_ensure_then s c2 h2); [exact Ha|]. intros A0. apply apply_err_st_tk. apply TK_refl. exact A0.
+  - destruct (get_conn s c2); [|apply TK_refl; auto]. destruct (h2 =? 0); [apply TK_refl; auto|apply conn_close_tk; auto].
+  - destruct (restart_tr cfg s Ha) as [A T]. split; [split; auto; eapply trans_nb; [apply nb_restart|reflexivity|exact T]|].
+    unfold keep_ch. assert (E : get_chan (fst (restart cfg s)) c h = None) by reflexivity. rewrite E. exact I.
+Qed.
+
+End Keep.
+
+(* ---- a channel that has given out a number is in confirm mode ---- *)
+Definition CT (s : state) : Prop := forall c h ch, get_chan s c h = Some ch -> 0 < ch_ctag ch -> ch_confirm ch = true.
+Definition AC (s : state) : Prop := Aux s /\ CT s.
+
+Lemma CT_rec s s' :
+  (forall c h ch', get_chan s' c h = Some ch' ->
+     (exists ch, get_chan s c h = Some ch /\ ch_ctag ch' = ch_ctag ch /\ ch_confirm ch' = ch_confirm ch) \/ (0 < ch_ctag ch' -> ch_confirm ch' = true)) ->
+  CT s -> CT s'.
+Proof.
+  intros H Hc c h ch' Hg Hp. destruct (H c h ch' Hg) as [(ch & Hg0 & E1 & E2)|X]; auto. rewrite E2. apply (Hc c h ch Hg0). lia.
+Qed.
+Lemma CT_mid_sct s s' : mid s s' -> sct_same s s' -> CT s -> CT s'.
+Proof.
+  intros Hm Hs. apply CT_rec. intros c h ch' Hg. left. pose proof (mid_ch _ _ Hm c h) as C. unfold mid_chan in C. rewrite Hg in C.
+  destruct (get_chan s c h) as [ch|] eqn:Hg0; [|tauto]. destruct C as (_ & b & _). specialize (Hs c h). rewrite Hg, Hg0 in Hs. cbn in Hs.
+  inversion Hs. exists ch. auto.
+Qed.
+Lemma CT_set_chan s c h ch ch' : get_chan s c h = Some ch -> (0 < ch_ctag ch' -> ch_confirm ch' = true) -> CT s -> CT (set_chan s c h ch').
+Proof.
+  intros Hg Hn. apply CT_rec. intros c1 h1 ch1 Hg1. rewrite get_chan_set_chan in Hg1. pose proof (get_chan_conn _ _ _ _ Hg). destruct (get_conn s c); [|congruence].
+  destruct ((c1 =? c) && (h1 =? h)); [inversion Hg1; subst; right; exact Hn|left; exists ch1; auto].
+Qed.
+Lemma conns_tick cfg fx s : conns (fst (step cfg fx s LPersistTick)) = conns s.
+Proof.
+  cbn [step fst]. match goal with |- conns (fold_left ?f ?l ?s0) = _ => assert (H : forall l0 s1, conns (fold_left f l0 s1) = conns s1) end.
+  { induction l0 as [|k r IH]; intros s1; cbn [fold_left]; auto. rewrite IH. apply conns_store_confirm. }
+  rewrite H. reflexivity.
+Qed.
+Lemma sct_same_relay cfg fx s : sct_same s (fst (step cfg fx s LRelay)).
+Proof.
+  cbn [step]. destruct (relay s) as [|u rest]; [intros ? ?; reflexivity|].
+  assert (H1 : sct_same s (s <| relay := rest |>)) by (apply sct_same_conns; reflexivity).
+  destruct (get_msg _ u) as [m|]; cbn [fst]; auto. destruct (m_conf m) as [[[c0 h0] t0]|]; cbn [fst]; auto.
+  eapply sct_same_trans; [exact H1|apply sct_same_add_confirm].
+Qed.
+
+Theorem AC_step cfg fx s l : fx_clear_current fx = true -> AC s -> fresh_step s l -> AC (fst (step cfg fx s l)).
+Proof.
+  intros Hfx. apply (B_step cfg fx AC (fun _ => True) (fun _ _ _ _ H => H) (fun _ => True)); auto; try (destruct l; exact I).
+  - intros s0 s1 Hv [Ha Hc]. split; [eapply Aux_mid; [apply vle_mid|]; eauto|]. revert Hc. apply CT_rec. intros c h ch' Hg. left.
+    pose proof (v_chan _ _ Hv c h) as A. unfold chan_le in A. rewrite Hg in A. destruct (get_chan s0 c h) as [ch|]; [|tauto].
+    destruct A as [Ew _]. inversion Ew. exists ch. auto.
+  - intros s0 c h [Ha Hc]. split; [apply (ensure_chan_tr s0 c h [] Ha eq_refl)|]. revert Hc. apply CT_rec. intros c1 h1 ch' Hg.
+    destruct (get_chan_ensure s0 c h c1 h1 ch' Hg) as [X|X]; [left; exists ch'; auto|subst; right; cbn; lia].
+  - intros s0 c h m Hcm _ [Ha Hc]. split; [apply (handle_method_tr cfg fx s0 c h m Ha)|].
+    unfold handle_method. destruct (get_chan s0 c h) as [ch|] eqn:Hch; [|exact Hc].
+    destruct m; try discriminate; unfold ok, refuse.
+    + destruct (ch_status ch); cbn [fst]; auto; try (apply (CT_set_chan s0 c h ch); auto; cbn; exact (Hc c h ch Hch)).
+      destruct (fx_reopen_resets fx).
+      * apply (CT_set_chan s0 c h ch); auto. cbn. lia.
+      * apply (CT_set_chan s0 c h ch); auto. cbn. exact (Hc c h ch Hch).
+    + destruct imm; auto. destruct (alookup seqb ex (exchanges s0)); auto.
+      destruct (ch_confirm ch) eqn:Ecf; cbn [fst];
+        (apply (CT_set_chan _ c h ch); [exact Hch| |intros c1 h1 ch1 X; exact (Hc c1 h1 ch1 X)]); cbn; auto.
+      intros X. exact (Hc c h ch Hch X).
+    + cbn [fst]. apply (CT_set_chan s0 c h ch); auto.
+  - intros s0 c [Ha Hc]. split; [apply (del_conn_tr s0 c [] Ha eq_refl)|]. revert Hc. apply CT_rec. intros c1 h1 ch' Hg.
+    rewrite get_chan_del_conn in Hg. destruct (c1 =? c); [discriminate|]. left. exists ch'. auto.
+  - intros s0 c h u ch _ Hg Hcur [Ha Hc]. split; [apply (finish_publish_tr fx s0 c h u ch [] Hfx Ha Hg Hcur eq_refl)|].
+    revert Hc. apply CT_rec. intros c1 h1 ch' Hg'. left.
+    destruct (finish_publish_corr c1 h1 fx s0 c h u ch ch' Hfx Ha Hg Hcur Hg') as (ch0 & Hg0 & _ & Ec). exists ch0. split; auto. split; auto.
+    pose proof (sct_same_finish fx s0 c h u c1 h1) as Hs. rewrite Hg', Hg0 in Hs. cbn in Hs. inversion Hs. auto.
+  - intros s0 c h ch Hg [Ha Hc]. split; [apply (drop_tr s0 c h ch Ha Hg)|]. apply (CT_set_chan s0 c h ch); auto. cbn. exact (Hc c h ch Hg).
+  - intros s0 [Ha Hc]. split; [eapply Aux_mid; [apply persist_tick_mid|exact Ha]|].
+    apply (CT_mid_sct s0); auto; [apply persist_tick_mid|apply sct_same_conns, conns_tick].
+  - intros s0 [Ha Hc]. split; [eapply Aux_mid; [apply relay_step_mid|exact Ha]|].
+    apply (CT_mid_sct s0); auto; [apply relay_step_mid|apply sct_same_relay].
+  - intros s0 c h [Ha Hc]. split; [apply (confirm_tick_tr cfg fx s0 c h Ha)|]. cbn [step].
+    destruct (get_chan s0 c h) as [ch|] eqn:Hg; auto. destruct (negb _); auto.
+    destruct (ch_status ch); cbn [fst]; (apply (CT_set_chan s0 c h ch); auto; cbn; exact (Hc c h ch Hg)).
+  - intros s0 c cn _ Ecn Hch Hfr [Ha Hc]. split; [apply (new_conn_tr s0 c cn [] Ecn Hch Hfr Ha eq_refl)|]. revert Hc. apply CT_rec.
+    intros c1 h1 ch' Hg. unfold get_chan, get_conn in Hg. cbn in Hg. rewrite (alookup_aset N.eqb Neqb_spec) in Hg. destruct (c1 =? c) eqn:E1.
+    + rewrite Hch in Hg. cbn in Hg. destruct (h1 =? 0); [|discriminate]. inversion Hg; subst. right. cbn. lia.
+    + left. exists ch'. auto.
+  - intros s0 [Ha Hc]. split; [apply (restart_tr cfg s0 Ha)|]. intros c h ch Hg. unfold restart, get_chan, get_conn in Hg. cbn in Hg. discriminate.
+Qed.
+
+Lemma live_confirm_of c h s : AC s -> live_confirm c h s.
+Proof.
+  intros [Ha Hc] u m t0 ch Hgm Ecf Hg Hi. apply (Hc c h ch Hg).
+  destruct (aux_msg _ Ha u m (alookup_in N.eqb Neqb_spec _ _ _ Hgm)) as [_ Hk].
+  destruct (Hk c h t0 Ecf) as [X|(ch0 & Hg0 & _ & Hr)]; [pose proof (get_chan_conn _ _ _ _ Hg); congruence|].
+  rewrite Hg in Hg0. inversion Hg0; subst ch0. specialize (Hr Hi). lia.
+Qed.
+
+(* ---- the condition on the run: no number of the current instance of channel (c,h) was dropped ---- *)
+Definition closedb (s : state) (c h : N) : bool :=
+  match get_chan s c h with Some ch => match ch_status ch with ChClosed => true | _ => false end | None => false end.
+Definition ctag_of (s : state) (c h : N) : N := match get_chan s c h with Some ch => ch_ctag ch | None => 0 end.
+(* one step.  Within an instance: no drop point (a publish accepted while the previous message is still being assembled,
+   a body frame beyond the announced size) and the channel is not closed afterwards.  When an instance begins (the channel
+   number comes into being or is opened again): it is not closed and has given out no number yet. *)
+Definition nd_step (cfg : config) (fx : fixes) (s : state) (l : label) (c h : N) (ok : bool) : bool :=
+  let s' := fst (step cfg fx s l) in
+  if oN_eqb (chan_inst s c h) (chan_inst s' c h)
+  then ok && negb (drops c h s l) && negb (closedb s' c h)
+  else negb (closedb s' c h) && (ctag_of s' c h =? 0).
+Fixpoint nd_from (cfg : config) (fx : fixes) (s : state) (ls : list label) (c h : N) (ok : bool) : bool :=
+  match ls with
+  | [] => ok
+  | l :: t => nd_from cfg fx (fst (step cfg fx s l)) t c h (nd_step cfg fx s l c h ok)
+  end.
+Definition no_drop_run (cfg : config) (fx : fixes) (s : state) (ls : list label) (c h : N) : bool := nd_from cfg fx s ls c h true.
+
+Definition GI (c h : N) (s : state) (A : list N) (ok : bool) : Prop :=
+  ok = true -> not_closed c h s /\
+  forall ch, get_chan s c h = Some ch -> forall t, 1 <= t <= ch_ctag ch -> In t (A ++ where_ch s c h ch).
+
+Lemma step_keep cfg fx s l c h :
+  fx_clear_current fx = true -> Units s -> AC s -> not_closed c h s -> fresh_step s l -> drops c h s l = false ->
+  keep_ch c h s (fst (step cfg fx s l)) (snd (step cfg fx s l)).
+Proof.
+  intros Hfx Hu Hac Hnc Hfr Hnd. destruct (is_confirm_tick l) eqn:El.
+  - destruct l; try discriminate. apply confirm_tick_keep.
+  - destruct (step_TK c h cfg fx s l Hfx El Hu (live_confirm_of c h s Hac) Hnc Hfr Hnd) as [_ K].
+    unfold keep_ch, covnew in *. rewrite (nb_acks c h _ (nb_step cfg fx s l El)). exact K.
+Qed.
+
+Lemma GI_step cfg fx s l c h A ok :
+  fx_clear_current fx = true -> Units s -> AC s -> fresh_step s l -> GI c h s A ok ->
+  GI c h (fst (step cfg fx s l)) (acked_step s (fst (step cfg fx s l)) (snd (step cfg fx s l)) c h A) (nd_step cfg fx s l c h ok).
+Proof.
+  intros Hfx Hu Hac Hfr Hgi Hok. unfold nd_step in Hok. cbv zeta in Hok. unfold acked_step.
+  set (s' := fst (step cfg fx s l)) in *. set (evs := snd (step cfg fx s l)).
+  destruct (oN_eqb (chan_inst s c h) (chan_inst s' c h)) eqn:Ei.
+  - apply andb_prop in Hok. destruct Hok as [Hok Hcl]. apply andb_prop in Hok. destruct Hok as [Hok Hdr].
+    apply Bool.negb_true_iff in Hcl, Hdr. destruct (Hgi Hok) as [Hnc Hcov].
+    split; [intros ch Hg X; unfold closedb in Hcl; rewrite Hg, X in Hcl; discriminate|].
+    intros ch' Hg' t Ht. pose proof (step_keep cfg fx s l c h Hfx Hu Hac Hnc Hfr Hdr) as K. fold s' evs in K.
+    unfold keep_ch in K. rewrite Hg' in K. unfold chan_inst in Ei. rewrite Hg' in Ei.
+    destruct (get_chan s c h) as [ch|] eqn:Hg; [|discriminate]. cbn [oN_eqb] in Ei. rewrite (N.eqb_sym (ch_inst ch') (ch_inst ch)), Ei in K.
+    destruct K as [Ka Kb]. rewrite <- app_assoc. destruct (N.le_gt_cases t (ch_ctag ch)) as [Hle|Hgt].
+    + specialize (Hcov ch eq_refl t (conj (proj1 Ht) Hle)). apply in_app_or in Hcov. apply in_or_app. destruct Hcov as [X|X]; [left; exact X|right].
+      apply cnt_in in X. apply cnt_in. specialize (Ka t). lia.
+    + apply in_or_app. right. apply Kb. lia.
+  - apply andb_prop in Hok. destruct Hok as [Hcl Hz]. apply Bool.negb_true_iff in Hcl. apply N.eqb_eq in Hz.
+    split; [intros ch Hg X; unfold closedb in Hcl; rewrite Hg, X in Hcl; discriminate|].
+    intros ch' Hg' t Ht. unfold ctag_of in Hz. rewrite Hg' in Hz. lia.
+Qed.
+
+Lemma GI_run cfg fx ls c h : forall s A ok,
+  fx_clear_current fx = true -> UW s -> AC s -> fresh_along cfg fx s ls -> GI c h s A ok ->
+  GI c h (fst (run cfg fx s ls)) (acked_from cfg fx s ls c h A) (nd_from cfg fx s ls c h ok).
+Proof.
+  induction ls as [|l t IH]; intros s A ok Hfx Huw Hac Hfr Hgi; [exact Hgi|].
+  destruct Hfr as [Hf1 Hf2]. rewrite run_cons. cbn [acked_from nd_from]. apply IH; auto.
+  - apply UW_step; auto.
+  - apply AC_step; auto.
+  - apply GI_step; auto. exact (proj1 Huw).
+Qed.
+
+Lemma AC_init cfg : AC (init cfg).
+Proof. split; [apply (proj1 (Inv_init cfg))|]. intros c h ch Hg. unfold get_chan, get_conn in Hg. cbn in Hg. discriminate. Qed.
+
+(* EXACTLY ONCE AT REST: on a channel that is open in confirm mode, not assembling a message, in a quiescent state, the
+   numbers acknowledged since the instance began are exactly 1 .. ch_ctag - provided the run dropped no number of the
+   instance (no_drop_run: decidable from the label list) *)
+Theorem confirm_exactly_once_at_rest cfg fx ls c h ch :
+  fx_clear_current fx = true -> fx_discard_closing fx = true -> fx_reopen_resets fx = true -> fx_delete_checks_first fx = true ->
+  fresh_along cfg fx (init cfg) ls -> no_drop_run cfg fx (init cfg) ls c h = true ->
+  let s := fst (run cfg fx (init cfg) ls) in
+  quiescent s = true -> get_chan s c h = Some ch -> ch_status ch = ChOpen -> ch_confirm ch = true -> ch_cur ch = None ->
+  Permutation (acked_run cfg fx (init cfg) ls c h) (nums (ch_ctag ch)).
+Proof.
+  intros H1 H2 H3 H4 Hfr Hnd s Hq Hg Hst Hcf Hcur.
+  apply (confirm_exactly_once_at_rest_partial cfg fx ls c h ch); auto. fold s.
+  assert (Hgi0 : GI c h (init cfg) [] true).
+  { intros _. split; intros ch0 X; unfold get_chan, get_conn in X; cbn in X; discriminate. }
+  pose proof (GI_run cfg fx ls c h (init cfg) [] true H1 (UW_init cfg) (AC_init cfg) Hfr Hgi0) as Hgi.
+  destruct (Hgi Hnd) as [_ Hcov]. intros t Ht. unfold where_is. fold s in Hcov. rewrite Hg. exact (Hcov ch Hg t Ht).
+Qed.
+
+(* every number is accounted for in every reachable state of such a run, at rest or not *)
+Theorem confirm_nothing_dropped cfg fx ls c h ch :
+  fx_clear_current fx = true -> fresh_along cfg fx (init cfg) ls -> no_drop_run cfg fx (init cfg) ls c h = true ->
+  let s := fst (run cfg fx (init cfg) ls) in
+  get_chan s c h = Some ch ->
+  forall t, 1 <= t <= ch_ctag ch -> In t (acked_run cfg fx (init cfg) ls c h ++ where_is s c h).
+Proof.
+  intros H1 Hfr Hnd s Hg t Ht.
+  assert (Hgi0 : GI c h (init cfg) [] true).
+  { intros _. split; intros ch0 X; unfold get_chan, get_conn in X; cbn in X; discriminate. }
+  pose proof (GI_run cfg fx ls c h (init cfg) [] true H1 (UW_init cfg) (AC_init cfg) Hfr Hgi0) as Hgi.
+  destruct (Hgi Hnd) as [_ Hcov]. unfold where_is. fold s. rewrite Hg. exact (Hcov ch Hg t Ht).
 Qed.
